@@ -232,7 +232,7 @@ theorem dsSize_app (b x : Bytes) (h : dataHeaderLength ≤ b.length) : dsSize (b
 
 theorem dataStream_msg_iff (b : Bytes) (m : Bytes × Bytes) (r : Bytes) :
     dataStream.ext b = .msg m r ↔
-      dataHeaderLength ≤ b.length ∧ dsSize b ≤ b.length ∧ dsSize b ≠ 0 ∧
+      dataHeaderLength ≤ b.length ∧ dsSize b ≤ b.length ∧ dataHeaderLength ≤ dsSize b ∧
       m = (b.take dataHeaderLength, (b.take (dsSize b)).drop dataHeaderLength) ∧
       r = b.drop (dsSize b) := by
   simp only [dataStream, dsSize]
@@ -245,14 +245,15 @@ theorem dataStream_msg_iff (b : Bytes) (m : Bytes × Bytes) (r : Bytes) :
       · split at h
         · cases h
         · cases h
-          exact ⟨by omega, by omega, by assumption, rfl, rfl⟩
+          exact ⟨by omega, by omega, by omega, rfl, rfl⟩
   · rintro ⟨h1, h2, h3, rfl, rfl⟩
     have a : ¬ b.length < dataHeaderLength := by omega
     have c : ¬ b.length < be ((b.drop dataSizeOffset).take dataSizeWidth) := by omega
-    simp [a, c, h3]
+    have d : ¬ be ((b.drop dataSizeOffset).take dataSizeWidth) < dataHeaderLength := by omega
+    simp [a, c, d]
 
 theorem dataStream_err_iff (b : Bytes) (e : ErrClass) :
-    dataStream.ext b = .err e ↔ dataHeaderLength ≤ b.length ∧ dsSize b = 0 ∧ e = .stall := by
+    dataStream.ext b = .err e ↔ dataHeaderLength ≤ b.length ∧ dsSize b < dataHeaderLength ∧ e = .malformed := by
   simp only [dataStream, dsSize]
   constructor
   · intro h
@@ -260,9 +261,9 @@ theorem dataStream_err_iff (b : Bytes) (e : ErrClass) :
     · cases h
     · split at h
       · cases h
+        exact ⟨by omega, by assumption, rfl⟩
       · split at h
         · cases h
-          exact ⟨by omega, by assumption, rfl⟩
         · cases h
   · rintro ⟨h1, h2, rfl⟩
     have a : ¬ b.length < dataHeaderLength := by omega
@@ -281,12 +282,13 @@ theorem dataStream_prefixStable : PrefixStable dataStream where
     intro b m r h
     rw [dataStream_msg_iff] at h
     obtain ⟨h1, h2, h3, rfl, rfl⟩ := h
+    have h0 : dataHeaderLength = 32 := rfl
     simp; omega
   errUp := by
     intro b x e h
     rw [dataStream_err_iff] at h
     obtain ⟨h1, h2, rfl⟩ := h
-    refine ⟨.stall, ?_⟩
+    refine ⟨.malformed, ?_⟩
     rw [dataStream_err_iff, dsSize_app b x h1]
     exact ⟨by simp; omega, h2, rfl⟩
 
